@@ -65,7 +65,9 @@ func (l *Lab) normalizeLikeExecute(operation, opName string, variables []byte) (
 		astnormalization.WithPrevalidationRules(
 			astvalidation.DeferStreamOnValidOperations(),
 			astvalidation.DeferStreamHaveUniqueLabels(),
+			astvalidation.DirectivesAreDefined(),
 			astvalidation.DirectivesAreInValidLocations(),
+			astvalidation.DirectivesAreUniquePerLocation(),
 			astvalidation.StreamAppliedToListFieldsOnly()),
 	)
 	if err != nil {
